@@ -502,6 +502,106 @@ Section Proofs.
     st_entered s ++ st_pending s = st_finished s.
   Proof. intros Hf. unfold run. apply fifo_exec; [reflexivity | exact Hf]. Qed.
 
+  (** *** The part of the invariant that does not depend on who put the packets into the queue
+      (used by Sio/PipelineConnProofs.v, where a second producer path exists). *)
+  Record InvF (s : state data) : Prop := {
+    invf_pollq : tr <> PollServer -> st_pollq s = [];
+    invf_frames : msgs (st_wire s) ++ msgs (st_pollq s) ++ concat (st_dr s) ++ st_q s
+                  = flat_map frames_of (map snd (st_log s));
+    invf_parse : st_rerr s = false ->
+                 pfrom None (fdata (msgs (st_done s))) = Ok (st_parser s, st_finished s);
+    invf_disp : Permutation (st_entered s ++ st_pending s) (st_finished s)
+  }.
+
+  Lemma invF_of_inv s : Inv s -> InvF s.
+  Proof. intros [I0 I1 I2 I3 I4]. constructor; assumption. Qed.
+
+  Lemma invF_step s a s' : InvF s -> stp tr a s = Some s' -> InvF s'.
+  Proof.
+    intros [I0 I2 I3 I4] H.
+    destruct a as [i| | |ty| | |k]; simpl in H.
+    - destruct (nth_error (st_em s) i) as [[|p rest]|] eqn:E; try discriminate.
+      inversion H; subst; clear H. constructor; simpl; auto.
+      rewrite map_app, flat_map_app. simpl flat_map. rewrite app_nil_r, <- I2.
+      norm_frames. reflexivity.
+    - destruct (st_dr s) eqn:Ed; try discriminate. destruct (st_q s) eqn:Eq; try discriminate.
+      inversion H; subst; clear H. constructor; simpl; auto.
+      rewrite <- I2. unfold st_wire; simpl. rewrite chunks_concat, app_nil_r. reflexivity.
+    - destruct (st_dr s) as [|c rest] eqn:Ed; try discriminate.
+      inversion H; subst; clear H.
+      destruct tr eqn:Et; constructor; simpl; auto;
+        try (intros Hne; rewrite Et in Hne; first [congruence | apply I0; discriminate]).
+      + rewrite I0 in * by discriminate. rewrite <- I2. norm_frames. reflexivity.
+      + rewrite <- I2. norm_frames. reflexivity.
+      + rewrite I0 in * by discriminate. rewrite <- I2. norm_frames. reflexivity.
+    - inversion H; subst; clear H.
+      destruct tr eqn:Et; constructor; simpl; auto;
+        try (intros Hne; rewrite Et in Hne; first [congruence | apply I0; discriminate]).
+      + rewrite <- I2. norm_frames. reflexivity.
+      + rewrite <- I2. norm_frames. reflexivity.
+      + rewrite <- I2. norm_frames. reflexivity.
+    - destruct tr eqn:Et; try discriminate. destruct (st_pollq s) eqn:Ep; try discriminate.
+      inversion H; subst; clear H. constructor; simpl; auto.
+      rewrite <- I2. norm_frames. reflexivity.
+    - destruct (st_rerr s) eqn:Er; try discriminate.
+      destruct (st_inbox s) as [|[f|ty] rest] eqn:Ei; try discriminate.
+      + specialize (I3 eq_refl).
+        destruct (padd (st_parser s) (f_data f)) as [[p' fin]| |] eqn:Ea;
+          inversion H; subst; clear H; constructor; simpl; auto; try discriminate;
+          try (rewrite <- I2; norm_frames; rewrite Ei; reflexivity).
+        * intros _. rewrite msgs_app, map_app. simpl. erewrite pfrom_snoc; eauto. now rewrite Ea.
+        * rewrite app_assoc. now apply Permutation_app_tail.
+      + inversion H; subst; clear H; constructor; simpl; auto.
+        * rewrite <- I2; norm_frames; rewrite Ei; reflexivity.
+        * intros _. rewrite msgs_app. simpl. rewrite app_nil_r. auto.
+    - destruct (nth_error (st_pending s) k) as [p|] eqn:E; try discriminate.
+      inversion H; subst; clear H. constructor; simpl; auto.
+      eapply perm_trans; [|exact I4]. rewrite <- app_assoc. apply Permutation_app_head. simpl.
+      now apply remove_nth_perm.
+  Qed.
+
+  (** With well-formed packets in the log the peer's parser cannot fail on the next frame ... *)
+  Lemma invF_step_no_err s a s' :
+    InvF s -> Forall wf (map snd (st_log s)) -> st_rerr s = false ->
+    stp tr a s = Some s' -> st_rerr s' = false.
+  Proof.
+    intros I W Hr H. destruct a as [i| | |ty| | |k]; simpl in H.
+    - destruct (nth_error (st_em s) i) as [[|p rest]|]; try discriminate.
+      inversion H; subst; exact Hr.
+    - destruct (st_dr s); try discriminate. destruct (st_q s); try discriminate.
+      inversion H; subst; exact Hr.
+    - destruct (st_dr s); try discriminate. inversion H; subst. destruct tr; exact Hr.
+    - inversion H; subst. destruct tr; exact Hr.
+    - destruct tr; try discriminate. destruct (st_pollq s); try discriminate.
+      inversion H; subst; exact Hr.
+    - rewrite Hr in H. destruct (st_inbox s) as [|[f|ty] rest] eqn:Ei; try discriminate.
+      + pose proof (invf_parse _ I Hr) as P. pose proof (invf_frames _ I) as F.
+        unfold st_wire in F. rewrite Ei in F. rewrite msgs_app in F. simpl in F.
+        destruct (pfrom_prefix _ W (msgs (st_done s) ++ [f])
+                    (msgs rest ++ msgs (st_pollq s) ++ concat (st_dr s) ++ st_q s))
+          as (st & k & Hk).
+        { rewrite <- F. rewrite <- !app_assoc. reflexivity. }
+        rewrite map_app in Hk. simpl in Hk. erewrite pfrom_snoc in Hk by eauto.
+        destruct (padd (st_parser s) (f_data f)) as [[p' fin]| |]; try discriminate.
+        inversion H; subst; reflexivity.
+      + inversion H; subst; reflexivity.
+    - destruct (nth_error (st_pending s) k); try discriminate. inversion H; subst; exact Hr.
+  Qed.
+
+  (** ... and what it has finished is a prefix of the log: wire order, own attachments. *)
+  Lemma invF_finished_prefix s :
+    InvF s -> Forall wf (map snd (st_log s)) -> st_rerr s = false ->
+    exists k, st_finished s = firstn k (map snd (st_log s)).
+  Proof.
+    intros I W Hr. pose proof (invf_parse _ I Hr) as P.
+    pose proof (invf_frames _ I) as F. unfold st_wire in F. rewrite msgs_app in F.
+    destruct (pfrom_prefix _ W (msgs (st_done s))
+                (msgs (st_inbox s) ++ msgs (st_pollq s) ++ concat (st_dr s) ++ st_q s))
+      as (st & k & Hk).
+    { rewrite <- F. rewrite <- !app_assoc. reflexivity. }
+    rewrite P in Hk. inversion Hk as [[Hk1 Hk2]]. exists k. exact Hk2.
+  Qed.
+
   Lemma reach_run sched : reach (run declared max_atts split tr sched progs).
   Proof. unfold run. apply reachable_exec. now apply reach_init. Qed.
 
